@@ -129,7 +129,16 @@ fn gen_records(w: &World, kind: Kind, scale: Scale, magic: Option<usize>, edge_d
         if !go {
             break;
         }
-        let id = if let Some(prefix) = &realistic {
+        let id = if realistic.is_none() && w.chance(1, 15) {
+            // identifiers shaped as databases and other formats write them: bars, colons,
+            // semicolons, version suffixes, region syntax
+            w.probe("id_shaped_like_a_database_identifier");
+            let shape = *w.pick(&[
+                "sp|P12345|NAME_HUMAN", "gi|12345|ref|NM_000001.1|", "P1;CRAB_ANAPL", "DL;x", "N1;y", "lcl|seq1", "gnl|db|id", "tr|Q9XYZ1|Q9XYZ1_MOUSE", "NC_000001.11",
+                "ENST00000456328.2", "chr1:100-200", "chr1:100-200(+)", "@SQ", "read/1", "read/2", "M01234:56:000000000-ABCDE:1:1101:15589:1332", "SRR000001.1", "1", "*", "=",
+            ]);
+            if w.chance(1, 2) { shape.to_string() } else { format!("{}{}", shape, string_from(w, id_chars(), 1, 3)) }
+        } else if let Some(prefix) = &realistic {
             format!("{}{}", prefix, *w.pick(&["1", "10", "2", "100", "12345", "11", "3/1", "3/2", ""]))
         } else if scale == Scale::Huge && w.chance(1, 4) {
             string_from(w, id_chars(), 1, 3000)
@@ -158,6 +167,9 @@ fn gen_records(w: &World, kind: Kind, scale: Scale, magic: Option<usize>, edge_d
                     d.push_str(*w.pick(&[
                         "len=12", "len=18446744073709551615", "length=4294967296", "len=99999999999999999999", "size=0", "LN:1000000000000",
                         "score=1e308", "strand=-", "offset=-1", "count=007", "[organism=x]", "len=", "=len", "length:65536",
+                        // what sequencers, archives and protein databases put after the id
+                        "1:N:0:ATCACG", "2:Y:18:ATCACG+GGCTAC", "length=36", "OS=Homo sapiens OX=9606 GN=X PE=1 SV=2", "rc", "/1", "+", "@", ">",
+                        "range=chr1:1-100 5'pad=0 3'pad=0 strand=+ repeatMasking=none", "dna:chromosome chromosome:GRCh38:1:1:248956422:1 REF",
                     ]));
                 }
                 w.probe("description_with_annotation_words");
@@ -216,6 +228,19 @@ fn gen_records(w: &World, kind: Kind, scale: Scale, magic: Option<usize>, edge_d
             match w.draw(4) {
                 1 => q[0] = b'@',
                 2 => q[0] = b'+',
+                3 if w.chance(1, 4) => {
+                    // quality strings as instruments write them: one value throughout, the Phred+64
+                    // range, a tail of 'B' or '#' (the "do not use" marks), the top of the range
+                    w.probe("quality_string_in_an_instrument_pattern");
+                    let n = q.len();
+                    match w.draw(5) {
+                        0 => q.iter_mut().for_each(|b| *b = b'#'),
+                        1 => q.iter_mut().for_each(|b| *b = b'@' + (*b - 33) % 41),
+                        2 => q[n - n / 2..].iter_mut().for_each(|b| *b = b'B'),
+                        3 => q[n - n / 2..].iter_mut().for_each(|b| *b = b'#'),
+                        _ => q.iter_mut().for_each(|b| *b = b'~'),
+                    }
+                }
                 _ => {}
             }
             q
